@@ -28,8 +28,9 @@ def counts(tier):
 class S:
     """a row source in the script"""
 
-    def __init__(self, var, name_in_stmt, kind):
+    def __init__(self, var, name_in_stmt, kind, table=None, schema=()):
         self.var, self.name, self.kind = var, name_in_stmt, kind
+        self.table, self.schema = table, tuple(schema)      # as written in the script: the table's own name and prefix chain
 
     def col(self, i):
         return "%s.c_%s_%d" % (self.var, self.var, i)
@@ -49,15 +50,19 @@ def make(rng, cls_name):
         x = rng.random()
         if x < 0.45:
             lines.append("%s = T(%r)" % (v, base + str(nv[0])))
-            return S(v, base + str(nv[0]), "table")
+            return S(v, base + str(nv[0]), "table", base + str(nv[0]))
         if x < 0.75:
             lines.append("%s = T(%r).as_(%r)" % (v, base, "a" + str(nv[0])))
-            return S(v, "a" + str(nv[0]), "table")
+            return S(v, "a" + str(nv[0]), "table", base)
         if x < 0.9:
             lines.append("%s = T(%r, schema=%r)" % (v, base + str(nv[0]), "sc"))
-            return S(v, base + str(nv[0]), "table")
+            return S(v, base + str(nv[0]), "table", base + str(nv[0]), ("sc",))
+        if rng.random() < 0.5:
+            # three levels given as a sequence (the back-compat form of schema=): every level is kept, outermost first
+            lines.append("%s = T(%r, schema=('srv', 'db', 'sc'))" % (v, base + str(nv[0])))
+            return S(v, base + str(nv[0]), "table", base + str(nv[0]), ("srv", "db", "sc"))
         lines.append("%s = T(%r, schema=('db', 'sc')).as_(%r)" % (v, base, "b" + str(nv[0])))
-        return S(v, "b" + str(nv[0]), "table")
+        return S(v, "b" + str(nv[0]), "table", base, ("db", "sc"))
 
     def new_sub():
         inner = new_table()
@@ -171,7 +176,8 @@ def generate(rng, n, tier):
             continue
         i += 1
         script, srcs, kind = m
-        yield {"script": script, "cls": cls, "kind": kind, "sources": [[s.var, s.name, s.kind] for s in srcs]}
+        yield {"script": script, "cls": cls, "kind": kind, "sources": [[s.var, s.name, s.kind] for s in srcs],
+               "tables": [[s.table, list(s.schema)] for s in srcs if s.kind == "table" and s.table]}
     # several un-aliased sub-queries in one FROM / JOIN list, some of them containing un-aliased sub-queries themselves
     # (their own counter is non-zero): the invented names of one list must be pairwise distinct
     for j in range(max(40, n // 25)):
@@ -235,6 +241,18 @@ def examine(case):
                              {"sql": text}, "str(statement)"))
     except Unsupported as ex:
         res.skipped = str(ex)[:40]
+    # qualification does not depend on how the data values are passed: with a parameter collector the statement has the
+    # same identifiers (qualifiers included), in the same order
+    try:
+        ptext = q.get_sql(parameter=ns.QmarkParameter())
+        ids_inline = [(t.val, t.quote) for t in sqlspec.lex(text, ident_quotes='"`') if t.kind == "id"]
+        ids_param = [(t.val, t.quote) for t in sqlspec.lex(ptext, ident_quotes='"`') if t.kind == "id"]
+        # boolean / null words are data under a collector
+        drop = {("true", None), ("false", None), ("null", None)}
+        if [x for x in ids_inline if x not in drop] != [x for x in ids_param if x not in drop]:
+            F("qualification-differs-with-collector", "with a parameter collector the identifiers differ: %s" % ptext)
+    except sqlspec.LexError:
+        pass
     if case.get("tagcalls"):
         # the invented names against the model's numbering rule (Lean `C10.tagCalls`, proved pairwise distinct)
         calls = [{"k": k, "sub": env[v]._subquery_count} for k, v in case["tagcalls"]]
@@ -285,7 +303,7 @@ def examine(case):
             nq += 1
             srcs_seen.add(var)
             # schema prefixes belong to the table in FROM only
-            if i >= 4 and toks[i - 3].kind == "p" and toks[i - 3].val == "." and toks[i - 4].kind == "id" and toks[i - 4].val in ("sc", "db"):
+            if i >= 4 and toks[i - 3].kind == "p" and toks[i - 3].val == "." and toks[i - 4].kind == "id" and toks[i - 4].val in ("sc", "db", "srv"):
                 F("schema-on-column", "column reference carries a schema prefix")
         else:
             setlhs = prev is not None and ((prev.kind == "kw" and prev.val in ("SET", "UPDATE")) or (prev.kind == "p" and prev.val == ","))
@@ -294,6 +312,26 @@ def examine(case):
                 continue
             F("unqualified", "column %s bound to %s is not qualified in a statement with several row sources" % (t.val, var))
             return res
+    # schema / database prefixes: each table source appears once with its complete prefix chain, outermost first
+    for tname, chain in case.get("tables", []):
+        want = []
+        for x in chain:
+            want += [x, "."]
+        want.append(tname)
+        if not any(t.kind == "id" and t.val == tname for t in toks):
+            continue            # a generated table that this statement does not use
+        if sum(1 for x, _ in case["tables"] if x == tname) > 1:
+            continue            # the same base name under several aliases / schemas: occurrences cannot be told apart
+        found = False
+        for i, t in enumerate(toks):
+            if t.kind == "id" and t.val == tname and [x.val for x in toks[max(0, i - len(want) + 1):i + 1]] == want:
+                before = toks[i - len(want)] if i - len(want) >= 0 else None
+                if not (before is not None and before.kind == "p" and before.val == "."):
+                    found = True
+                    break
+        if not found:
+            F("schema-prefix", "table %s is not written with its prefix chain %s" % (tname, ".".join(chain + [tname])))
+            break
     res.nontrivial = nq >= 3 and len(srcs_seen) >= 2
     # invented names are pairwise distinct within the statement
     inv = []
